@@ -15,6 +15,11 @@ const SPELL: [(&str, usize); 26] = [
     ("degDe", 4), ("°De", 4), ("delisle", 4),
     ("degN", 5), ("°N", 5), ("degnewton", 5),
 ];
+/// What may stand between the number and the scale (U+2009 THIN SPACE is how SI writes `20 °C`;
+/// it is also a digit-group separator of the number lexer, which is why it needs its own case).
+const SEPS: [(&str, &str); 5] = [(" ", "a space"), ("", "nothing"), ("\t", "a tab"), ("  ", "two spaces"), ("\u{2009}", "U+2009 thin space")];
+/// (literal, numerator, denominator)
+const SEP_LITS: [(&str, i64, i64); 7] = [("20", 20, 1), ("0", 0, 1), ("0.5", 1, 2), ("273.15", 27315, 100), ("1e2", 100, 1), ("1_000", 1000, 1), ("12\u{2009}345", 12345, 1)];
 const CANON: [&str; 6] = ["°C", "°F", "°Ré", "°Rø", "°De", "°N"];
 
 /// textbook affine maps, hard-coded: kelvin = a*x + b
@@ -95,6 +100,8 @@ impl C10 {
         fams.add("dimensioned operand under <s1>, converted to <s2>", vec![DIMMED.len() as u64, s, s]);
         // the output-format modifiers in front of a scale target: the value reported is the same
         fams.add("(x <s1>) -> <modifier> <s2> over the canonical spellings", vec![n, 6, 6, FMT_MODS.len() as u64]);
+        // the number's own lexical neighbourhood: separators between the literal and the scale
+        fams.add("what stands between the number and the scale", vec![SEP_LITS.len() as u64, SEPS.len() as u64, s, 2]);
         C10 { fams, xs, ctx: Lazy::new() }
     }
 }
@@ -121,7 +128,7 @@ impl Space for C10 {
         Meta {
             id: "C10",
             level: "exploration",
-            rule: "rational x (boundary set: 0, +-1, 32, 100, -273.15, -459.67, -500, 1/3, -22/7, a 21-digit fraction, 1e20, ...; thorough adds the grid p/q, |p|<=40, q in {1,2,3,7,10,97}) x all 26 spellings of the six scales: `x <s>` against hard-coded textbook affine maps; `(x <s1>) -> <s2>` for all 26x26 ordered spelling pairs (36 scale pairs, incl. same-scale round trips); chains of three conversions over all 6^3 scale triples; 28 refusal shapes x 26 spellings (dimensioned operand, scale inside a compound target, anything after a scale target: text, a list separator, a second arrow, a bracket, a power; base modifier, non-temperature source); 4 dimensioned operands under every spelling converted to every spelling (26x26, incl. the same scale); every x and ordered scale pair again under the format modifiers frac / sci / eng / digits / digits 20 / digits 0 in front of the target. Non-trivial = all; distinct by query text".into(),
+            rule: "rational x (boundary set: 0, +-1, 32, 100, -273.15, -459.67, -500, 1/3, -22/7, a 21-digit fraction, 1e20, ...; thorough adds the grid p/q, |p|<=40, q in {1,2,3,7,10,97}) x all 26 spellings of the six scales: `x <s>` against hard-coded textbook affine maps; `(x <s1>) -> <s2>` for all 26x26 ordered spelling pairs (36 scale pairs, incl. same-scale round trips); chains of three conversions over all 6^3 scale triples; 28 refusal shapes x 26 spellings (dimensioned operand, scale inside a compound target, anything after a scale target: text, a list separator, a second arrow, a bracket, a power; base modifier, non-temperature source); 4 dimensioned operands under every spelling converted to every spelling (26x26, incl. the same scale); 7 literals (plain, fraction, exponent, with `_` and U+2009 digit groups) x 5 separators between number and scale (space, none, tab, two spaces, U+2009 thin space directly after the digits - a thin space elsewhere is not white space in rink's grammar and is not demanded) x 26 spellings, alone and converted to degF; every x and ordered scale pair again under the format modifiers frac / sci / eng / digits / digits 20 / digits 0 in front of the target. Non-trivial = all; distinct by query text".into(),
             assumptions: vec!["textbook constants: 273.15, 459.67, 5/9, 5/4, 40/21 & 7.5, 373.15 & 2/3, 100/33".into()],
             exhaustive: true,
             extra: json!({"families": self.fams.summary(), "spellings": SPELL.iter().map(|s| s.0).collect::<Vec<_>>(), "refusal_shapes": REFUSE}),
@@ -138,6 +145,7 @@ impl Space for C10 {
             2 => format!("{} {} -> {} -> {} (chained)", self.xs[d[0] as usize].0, CANON[d[1] as usize], CANON[d[2] as usize], CANON[d[3] as usize]),
             4 => format!("{} {} -> {}", DIMMED[d[0] as usize], SPELL[d[1] as usize].0, SPELL[d[2] as usize].0),
             5 => format!("({} {}) -> {} {}", self.xs[d[0] as usize].0, CANON[d[1] as usize], FMT_MODS[d[3] as usize], CANON[d[2] as usize]),
+            6 => format!("{}{}{}{}", SEP_LITS[d[0] as usize].0, SEPS[d[1] as usize].0, SPELL[d[2] as usize].0, if d[3] == 1 { " -> °F" } else { "" }),
             _ => REFUSE[d[0] as usize].replace("{s}", SPELL[d[1] as usize].0),
         }
     }
@@ -177,6 +185,31 @@ impl Space for C10 {
                     }
                     Ok(o) => out = out.viol("scale operator: unexpected reply", format!("`{}` -> {}", q, reply_kind(&o))),
                     Err(e) => out = out.viol("scale operator refused a plain number", format!("`{}` -> {}", q, e)),
+                }
+            }
+            6 => {
+                let x = rat(SEP_LITS[d[0] as usize].1, SEP_LITS[d[0] as usize].2);
+                let k = to_kelvin(SPELL[d[2] as usize].1, &x);
+                out.outcome = "number and scale with another separator".into();
+                let sep = SEPS[d[1] as usize].1;
+                if d[3] == 1 {
+                    let want = from_kelvin(1, &k);
+                    match conv(ctx, &q) {
+                        Ok(g) if g == want => {}
+                        Ok(g) => out = out.viol("scale conversion disagrees with the textbook formula", format!("`{}` ({} before the scale) -> {}, textbook {}", q.escape_default(), sep, g, want)),
+                        Err(e) => out = out.viol(format!("number and scale separated by {} are refused", sep), format!("`{}`: {}", q.escape_default(), e)),
+                    }
+                } else {
+                    match eval_q(ctx, &q) {
+                        Ok(QueryReply::Number(p)) => {
+                            let raw = p.raw_value.unwrap();
+                            if dims_of(&raw) != kelvin_dims() || numeric_to_rat(&raw.value) != Some(k.clone()) {
+                                out = out.viol("scale operator disagrees with the textbook formula", format!("`{}` ({} before the scale) -> {:?} {:?}, textbook {} K", q.escape_default(), sep, raw.value.to_rational(), dims_of(&raw), k));
+                            }
+                        }
+                        Ok(o) => out = out.viol("scale operator: unexpected reply", format!("`{}` -> {}", q.escape_default(), reply_kind(&o))),
+                        Err(e) => out = out.viol(format!("number and scale separated by {} are refused", sep), format!("`{}`: {}", q.escape_default(), e)),
+                    }
                 }
             }
             1 => {
